@@ -79,6 +79,13 @@ OpClear(ts) == Res(<<"unit">>, <<>>, KTags(ts), VTags(ts))
 \* ctors.rs:68-74  Drop for Map: every live slot is destroyed; the step continues with a new empty container
 OpDrop(ts) == Res(<<"unit">>, <<>>, KTags(ts), VTags(ts))
 
+\* ctors.rs: Default::default() / new() / the deprecated with_capacity(c), which asserts c == N.
+\* The step replaces the container by the newly made one (the old one is dropped).
+OpDefault(ts) == Res(<<"unit">>, <<>>, KTags(ts), VTags(ts))
+OpWithCapacity(ts, cap, c) == IF c = cap THEN Res(<<"unit">>, <<>>, KTags(ts), VTags(ts)) ELSE Res(<<"panic">>, ts, {}, {})
+\* iterators.rs / keys.rs / values.rs: the Default iterators are empty and stay empty
+OpIterDefaults(ts) == Res(<<"lens", <<0, 0, 0, 0, 0, 0, 0, 0>>>>, ts, {}, {})
+
 \* ------------------------------------------------------------- cursors --
 BorrowKinds  == {"iter", "iter_mut", "keys", "values", "values_mut"}
 ConsumeKinds == {"into_iter", "into_keys", "into_values"}
@@ -336,6 +343,10 @@ Apply(ts, cap, op) ==
     [] op.name = "retain"           -> OpRetain(ts, op.keep, op.w)
     [] op.name = "clear"            -> OpClear(ts)
     [] op.name = "drop"             -> OpDrop(ts)
+    [] op.name = "default"          -> OpDefault(ts)
+    [] op.name = "s_default"        -> NoV(OpDefault(ts))
+    [] op.name = "with_capacity"    -> OpWithCapacity(ts, cap, op.c)
+    [] op.name = "iter_defaults"    -> OpIterDefaults(ts)
     [] op.name = "s_drop"           -> NoV(OpDrop(ts))
     [] op.name = "drain"            -> OpDrain(ts, op.n, op.end, op.fin, op.j)
     [] op.name = "cursor" /\ op.kind \in BorrowKinds  -> OpBorrowCursor(ts, op.kind, op.n, op.w, op.fin, op.j)
